@@ -205,3 +205,63 @@ class YLog:
 
     def __bool__(self):
         return False
+
+
+class GText:
+    """Ghost for a string accumulated by a loop (`xml += piece`): a fixed prefix followed by `cnt` appended pieces.  Every
+    appended piece is a structured string literal/hole/literal/...; all pieces must have the same literal skeleton (`shape`);
+    hole p of the i-th piece is HOLE[p][i].  Immutable: `+` gives a new GText."""
+
+    __pyvc_symbolic__ = True
+
+    def __init__(self, prefix, tag, cnt, shape=None, holes=None):
+        self.prefix, self.tag, self.cnt, self.shape = prefix, tag, cnt, shape
+        self.holes = holes or {}
+
+    @classmethod
+    def havocked(cls, v, tag):
+        prefix = v.prefix if isinstance(v, GText) else v
+        g = cls(prefix, tag, z3.Int("txt_cnt_%s" % tag))
+        if isinstance(v, GText):
+            g.shape = v.shape
+        return g
+
+    @classmethod
+    def of(cls, v):
+        """view of a plain (structured) string as an accumulator with no appended piece"""
+        return v if isinstance(v, GText) else cls(v, "init", z3.IntVal(0))
+
+    def hole(self, p, sort):
+        key = (p, str(sort))
+        if key not in self.holes:
+            self.holes[key] = z3.Array("txt_hole%d_%s_%s" % (p, sort, self.tag), z3.IntSort(), sort)
+        return self.holes[key]
+
+    def sym_truth(self, it):
+        return True
+
+    def sym_binop(self, it, opn, other, reflected):
+        from .engine import FmtInt, FmtReal, Atom
+
+        if opn != "Add" or reflected or not isinstance(other, (str, SStr)):
+            raise Unsupported("operator %s on an accumulated text" % opn)
+        parts = _as_sstr(other).parts
+        lits = tuple(p for p in parts if isinstance(p, str))
+        hs = [p for p in parts if not isinstance(p, str)]
+        skeleton = tuple("\x00" if not isinstance(p, str) else p for p in parts)
+        if self.shape is not None and self.shape != skeleton:
+            raise Unsupported("pieces of different shapes appended to one accumulated text")
+        g = GText(self.prefix, self.tag, self.cnt + 1, skeleton, dict(self.holes))
+        for p, h in enumerate(hs):
+            if isinstance(h, FmtInt):
+                term, sort = to_int(h.term), z3.IntSort()
+            elif isinstance(h, FmtReal):
+                term, sort = h.term, z3.RealSort()
+            elif isinstance(h, Atom) and h.zs is not None:
+                term, sort = h.zs, z3.StringSort()
+            else:
+                raise Unsupported("hole %r of an appended piece has no term" % (h,))
+            key = (p, str(sort))
+            arr = self.hole(p, sort)
+            g.holes[key] = z3.Store(arr, self.cnt, term)
+        return g
